@@ -28,8 +28,8 @@ func TestC07ConcurrentOverwrite(t *testing.T) {
 		_ = b.RegisterNode("f", &nodes.N{W: w, Name: "f#0", ID: "f", T: eventlogger.NodeTypeFilter})
 		_ = b.RegisterNode("m", &nodes.N{W: w, Name: "m", ID: "m", T: eventlogger.NodeTypeFormatter})
 		type ver struct {
-			sink       *nodes.N
-			call, ret  int64
+			sink      *nodes.N
+			call, ret int64
 		}
 		vers := make([]*ver, versions)
 		reg := func(k int) {
